@@ -193,6 +193,25 @@ func runOrigin(c J, emit func(J)) {
 					st2 = "residues differ"
 				}
 				ev["slow"] = st2
+				// the scanned record written back before anything decodes its block: the block a reader stores
+				// must be the canonical one (LF and CRLF input)
+				for _, crlf := range []bool{false, true} {
+					in := text
+					if crlf {
+						in = strings.ReplaceAll(text, "\n", "\r\n")
+					}
+					same := false
+					if seqs, errs, pp := scanAll(in); pp == nil && errs == "" && len(seqs) == 1 {
+						if t2, perr := writeGenBank(seqs[0]); perr == nil {
+							same = t2 == text
+						}
+					}
+					if crlf {
+						ev["rewrite_slow"] = same
+					} else {
+						ev["rewrite_fast"] = same
+					}
+				}
 				// two records in one stream, all scanned before any is decoded (ORIGIN blocks decode lazily):
 				// the first record must still hold its own residues afterwards
 				if n <= 400 {
@@ -224,7 +243,7 @@ func runOrigin(c J, emit func(J)) {
 					}
 				}
 			}()
-			for _, k := range []string{"pair_fast", "pair_slow"} {
+			for _, k := range []string{"pair_fast", "pair_slow", "rewrite_fast", "rewrite_slow"} {
 				if _, ok := ev[k]; !ok {
 					ev[k] = true
 				}
